@@ -12,3 +12,122 @@ Theorem content_length_mismatch_is_message_error : forall A (st : sstate) (k : v
   s_ecl st = Some e -> s_cl st <> e -> check_content_length st k = PErr H3_MESSAGE_ERROR.
 Proof. exact H3StreamProofs.content_length_mismatch_is_message_error. Qed.
 Print Assumptions content_length_mismatch_is_message_error.
+From AQ Require Import model.H3Parse model.H3Events proofs.H3EventsSpec proofs.H3EventsProofs proofs.H3EventsLoop proofs.H3EventsConn proofs.H3EventsThm.
+Theorem events_respect_spec : forall fx hdrs client dgram tr,
+  fx_pushblock fx = true -> trace_ok (map fst tr) ->
+  all_ok client hdrs [] (events_of (h3_run fx hdrs (conn_init client dgram) tr)).
+Proof. exact events_respect_spec_proof. Qed.
+Print Assumptions events_respect_spec.
+Theorem events_wellformed : forall fx hdrs client dgram tr,
+  fx_pushblock fx = true -> trace_ok (map fst tr) ->
+  forall pre sid p hid fin post,
+  events_of (h3_run fx hdrs (conn_init client dgram) tr) = pre ++ H3Parse.EHeaders sid p hid fin :: post ->
+  wellformed (kind_at client sid pre) (hdrs hid) /\ headers_count sid pre <= 1.
+Proof. exact events_wellformed_proof. Qed.
+Print Assumptions events_wellformed.
+Theorem push_promises_wellformed : forall fx hdrs client dgram tr,
+  fx_pushblock fx = true -> trace_ok (map fst tr) ->
+  forall pre sid pid hid post,
+  events_of (h3_run fx hdrs (conn_init client dgram) tr) = pre ++ EPush sid pid hid :: post ->
+  client = true /\ wellformed KPushPromise (hdrs hid).
+Proof. exact push_promises_wellformed_proof. Qed.
+Print Assumptions push_promises_wellformed.
+Theorem events_content_length : forall fx hdrs client dgram tr,
+  fx_pushblock fx = true -> trace_ok (map fst tr) ->
+  forall pre e post hid n,
+  events_of (h3_run fx hdrs (conn_init client dgram) tr) = pre ++ e :: post -> ev_fin e = true ->
+  first_block (ev_sid e) (pre ++ [e]) = Some hid -> declares (hdrs hid) n ->
+  body_of (ev_sid e) (pre ++ [e]) = n.
+Proof. exact events_content_length_proof. Qed.
+Print Assumptions events_content_length.
+Theorem data_only_after_headers : forall fx hdrs client dgram tr,
+  fx_pushblock fx = true -> trace_ok (map fst tr) ->
+  forall pre sid p d fin post,
+  events_of (h3_run fx hdrs (conn_init client dgram) tr) = pre ++ H3Parse.EData sid p d fin :: post ->
+  d <> [] -> headers_count sid pre = 1.
+Proof. exact data_only_after_headers_proof. Qed.
+Print Assumptions data_only_after_headers.
+Theorem trailers_after_headers : forall fx hdrs client dgram tr,
+  fx_pushblock fx = true -> trace_ok (map fst tr) ->
+  forall pre sid p hid fin post,
+  events_of (h3_run fx hdrs (conn_init client dgram) tr) = pre ++ H3Parse.EHeaders sid p hid fin :: post ->
+  wellformed (kind_at client sid pre) (hdrs hid) /\ headers_count sid pre <= 1.
+Proof. exact events_wellformed_proof. Qed.
+Print Assumptions trailers_after_headers.
+Theorem h3parse_refines_stream_model : forall hdrs client fx Q st0 data fin g evs st',
+  sinv client g st0 -> cur_ok st0 ->
+  rq_recv fx (with_validators hdrs Q) client st0 data fin = RVal evs st' ->
+  chain hdrs client (s_id st0) g evs /\ sinv client (gl hdrs g evs) st' /\ cur_ok st'
+  /\ s_id st' = s_id st0 /\ H3Parse.s_ended st' = H3Parse.s_ended st0 || fin.
+Proof. exact H3EventsLoop.rq_recv_post. Qed.
+Print Assumptions h3parse_refines_stream_model.
+Theorem malformed_headers_closes : forall hdrs fx Q client data st ended hid,
+  H3Parse.s_hstate st = 0 \/ H3Parse.s_hstate st = 1 ->
+  decoded Q data st = DHeaders hid ->
+  ~ wellformed (if H3Parse.s_hstate st =? 0 then rolekind client else KTrailers) (hdrs hid) ->
+  handle_rp_frame fx (with_validators hdrs Q) client 1 data st ended = HErr H3Parse.H3_MESSAGE_ERROR.
+Proof. exact H3EventsThm.malformed_headers_closes. Qed.
+Print Assumptions malformed_headers_closes.
+Theorem malformed_push_promise_closes : forall hdrs fx Q client d pid rest st ended hid,
+  client = true -> s_push st = None -> pull_uint_var d = Some (pid, rest) ->
+  o_dec Q (s_id st) rest = DHeaders hid -> ~ wellformed KPushPromise (hdrs hid) ->
+  handle_rp_frame fx (with_validators hdrs Q) client 5 (Some d) st ended = HErr H3Parse.H3_MESSAGE_ERROR.
+Proof. exact H3EventsThm.malformed_push_promise_closes. Qed.
+Print Assumptions malformed_push_promise_closes.
+Theorem content_length_mismatch_closes : forall fx client O t data st evs st1,
+  fx_endmark fx = true ->
+  handle_rp_frame fx O client t data st false = HVal evs st1 -> check_cl st1 = false ->
+  handle_rp_frame fx O client t data st true = HErr H3Parse.H3_MESSAGE_ERROR.
+Proof. exact H3EventsThm.mismatch_at_end_closes. Qed.
+Print Assumptions content_length_mismatch_closes.
+Theorem data_out_of_order_is_frame_unexpected : forall fx client O data st ended,
+  H3Parse.s_hstate st <> 1 -> handle_rp_frame fx O client 0 data st ended = HErr H3_FRAME_UNEXPECTED.
+Proof. exact H3EventsThm.data_before_headers_or_after_trailers. Qed.
+Print Assumptions data_out_of_order_is_frame_unexpected.
+Theorem headers_after_trailers_is_frame_unexpected : forall fx client O data st ended,
+  H3Parse.s_hstate st = 2 -> handle_rp_frame fx O client 1 data st ended = HErr H3_FRAME_UNEXPECTED.
+Proof. exact H3EventsThm.headers_after_trailers. Qed.
+Print Assumptions headers_after_trailers_is_frame_unexpected.
+Theorem end_marker_without_headers :
+  exists tr, trace_ok (map fst tr) /\
+    events_of (h3_run all_fixed ex_hdrs (conn_init false true) tr) = [H3Parse.EData 0 None [] true].
+Proof. exact end_marker_without_headers_proof. Qed.
+Print Assumptions end_marker_without_headers.
+From AQ Require Import proofs.H3EventsAbs.
+Theorem handler_refines_stream_model_data : forall hdrs fx O client d st ended,
+  abs_hres hdrs (handle_rp_frame fx O client 0 (Some d) st ended) = Some (handle_data (abs_state st) (Zlen d) ended).
+Proof. exact handler_refines_data. Qed.
+Print Assumptions handler_refines_stream_model_data.
+Theorem handler_refines_stream_model_headers : forall hdrs fx Q client data st ended hid,
+  0 <= H3Parse.s_hstate st <= 2 -> (H3Parse.s_hstate st = 0 -> s_expect st = None) ->
+  (match data with Some d => o_dec Q (s_id st) d | None => o_resume Q (s_id st) end) = DHeaders hid ->
+  abs_hres hdrs (handle_rp_frame fx (with_validators hdrs Q) client 1 data st ended)
+  = Some (handle_headers client (abs_state st) (hdrs hid) ended).
+Proof. exact handler_refines_headers. Qed.
+Print Assumptions handler_refines_stream_model_headers.
+Theorem delivery_refines_ofin : forall hdrs fx Q client, fx_trunc fx = true -> forall st, at_op st ->
+  abs_rres hdrs (rq_recv fx (with_validators hdrs Q) client st [] true) = Some (stream_step client (abs_state st) OFin).
+Proof. exact sim_fin. Qed.
+Print Assumptions delivery_refines_ofin.
+Theorem delivery_refines_odatacont : forall hdrs fx Q client, fx_trunc fx = true ->
+  forall st r data fin, at_op st -> s_cur st = Some (0, r) -> 0 < r -> Zlen data <= r ->
+  abs_rres hdrs (rq_recv fx (with_validators hdrs Q) client st data fin)
+  = Some (stream_step client (abs_state st) (ODataCont (Zlen data) fin)).
+Proof. exact sim_data_cont. Qed.
+Print Assumptions delivery_refines_odatacont.
+Theorem delivery_refines_odatastart : forall hdrs fx Q client, fx_trunc fx = true ->
+  forall st data size payload fin, at_op st -> s_cur st = None ->
+  rq_hdr st data = Some (0, size, payload) -> is_nil data = false -> Zlen payload <= size ->
+  abs_rres hdrs (rq_recv fx (with_validators hdrs Q) client st data fin)
+  = Some (stream_step client (abs_state st) (ODataStart size (Zlen payload) fin)).
+Proof. exact sim_data_start. Qed.
+Print Assumptions delivery_refines_odatastart.
+Theorem delivery_refines_oheaders : forall hdrs fx Q client, fx_trunc fx = true ->
+  forall st data n block fin hid, at_op st -> s_cur st = None ->
+  0 <= H3Parse.s_hstate st <= 2 -> (H3Parse.s_hstate st = 0 -> s_expect st = None) ->
+  rq_hdr st data = Some (1, n, block) -> is_nil data = false -> Zlen block = n ->
+  o_dec Q (s_id st) block = DHeaders hid ->
+  abs_rres hdrs (rq_recv fx (with_validators hdrs Q) client st data fin)
+  = Some (stream_step client (abs_state st) (OHeaders (hdrs hid) fin)).
+Proof. exact sim_headers. Qed.
+Print Assumptions delivery_refines_oheaders.
